@@ -576,6 +576,12 @@ func (fv *FV) checkFrame(ex *Exit, k int, at ast.Node) {
 			foot["bigval"] = append(foot["bigval"], r)
 			return
 		}
+		if a, ok := objArray(t); ok {
+			for i := int64(0); i < a.Len(); i++ {
+				addObj(fv.elemAddr(a.Elem(), r, intLit(i)), a.Elem())
+			}
+			return
+		}
 		st := structOf(t)
 		if st == nil {
 			return
